@@ -27,7 +27,7 @@ def draw_kwargs(rng):
     return kw, extra
 
 
-def model_checks(agent, name, kw, extra, where):
+def model_checks(agent, name, kw, extra, where, others=()):
     P = []
     dr = kw.get("default_route", 1)
     routes = kw.get("routes") or {}
@@ -35,7 +35,7 @@ def model_checks(agent, name, kw, extra, where):
     hc = kw.get("hosting_costs") or {}
     if agent.name != name:
         P.append(("%s:name" % where, "name %r != %r" % (agent.name, name)))
-    for a in AGENTS + [name, "unknown_agent"]:
+    for a in AGENTS + [name, "unknown_agent"] + [o for o in others if o != name]:
         want = 0 if a == name else routes.get(a, dr)
         try:
             got = agent.route(a)
@@ -116,6 +116,14 @@ def check(rng, R):
         idx = (l1, l2)
         names = {tuple(c): prefix + sep.join(c) for c in itertools.product(l1, l2)}
         ckw["separator"] = sep
+    siblings = sorted(set(names.values()))
+    if "routes" in ckw and len(siblings) >= 2 and rng.random() < 0.7:
+        # the route table also names some of the agents created by the same call
+        kw = dict(kw)
+        kw["routes"] = dict(kw["routes"])
+        for sname in rng.sample(siblings, rng.randint(1, len(siblings))):
+            kw["routes"][sname] = rng.choice([0, 3, 5, 7.5])
+        ckw["routes"] = dict(kw["routes"])
     W = {"form": form, "prefix": prefix, "indexes": repr(idx), "kwargs": ckw, "extra": extra}
     try:
         created = create_agents(prefix, idx, **ckw, **extra)
@@ -127,7 +135,7 @@ def check(rng, R):
         P.append(("create_agents:keys", "create_agents keys %r, expected %r" % (sorted(map(repr, created)), sorted(map(repr, names)))))
         return P, W
     for key, nm in names.items():
-        P += model_checks(created[key], nm, kw, extra, "create_agents")
+        P += model_checks(created[key], nm, kw, extra, "create_agents", others=siblings)
     return P, W
 
 
